@@ -69,3 +69,12 @@ func vTimeNs(t time.Time) int64    { panic("intrinsic") }
 func vLastNow() int64              { panic("intrinsic") }
 func vNoIOFaults()                 { panic("intrinsic") }
 func vIOSize(n int64)              { panic("intrinsic") }
+func vFSCrashAt(k int)             { panic("intrinsic") }
+func vFSOps() int                  { panic("intrinsic") }
+func vFSCrashed() bool             { panic("intrinsic") }
+func vFSApplyCrash()               { panic("intrinsic") }
+func vFSMkdirAll(path string)      { panic("intrinsic") }
+func vFSSyncAll()                  { panic("intrinsic") }
+func vBlobID(b []byte) uint64      { panic("intrinsic") }
+func vFileContent(b *bufferedFile) uint64 { panic("intrinsic") }
+func vFSCorruptFile(path string) bool { panic("intrinsic") }
